@@ -68,5 +68,5 @@ Flags == [i \in 1..Len(Universe) |-> IF Valid(Universe[i]) THEN 1 ELSE 0]
 
 PrintBehaviour ==
     PrintT(<<"REPLAY", ToJson([actions |-> hist, valid |-> Flags,
-                               state |-> ToString(View)])>>)
+                               state |-> ToString(View), reg |-> reg])>>)
 =============================================================================
